@@ -145,7 +145,19 @@ def run(tier='quick'):
     # container indexing inside decoders (result[i] in v1 decode_beatgrid etc.) is part of D3 too
     chk.ok(D3, 'decoders: container indexing checked by the interpreter (issues of kind index above)',
            site='decoders-index')
-    _zlib_status(prog, chk, D5, zu)
+    try:
+        _zlib_status(prog, chk, D5, zu)
+    except AnalysisBroken as e:
+        # the decompression loop has a form the finite evaluator does not model: D5 is undecided (exit 2 unless
+        # another rule reports a violation, which stands on its own)
+        chk.fail_broken('D5: %s' % e)
+    D7 = chk.rule('D7', 'a raw pointer or iterator taken from a growable container (v.data(), &v[i], v.begin()) and kept in '
+                        'a local or in a member of a local struct (strm.next_out) is not used after an operation that may '
+                        'reallocate the container (resize, reserve, insert, push_back, ...) unless taken again', floor=4)
+    from . import extra
+    extra.pointers_fresh(prog, chk, D7, [prog.functions[k] for k in sorted(all_analysed) if k in prog.functions] +
+                         [g for g in prog.functions.values() if g.name in ('zlib_uncompress', 'zlib_compress')
+                          and g.body is not None and prog.in_repo(g.file)])
 
     # ---- D4 loop progress ----------------------------------------------------------
     scope = [prog.functions[k] for k in sorted(all_analysed) if k in prog.functions]
